@@ -186,3 +186,14 @@ pub fn c08_blocking_async_payload(inp: &mut Inp) {
     expect_stream(&out, &head, pay);
     reached();
 }
+
+// experimental: the sync->async bridge (futures AllowStdIo) inspects and drops the io::Error itself; that decode does not fold under symex (timeout at 900 s)
+//@ {"tier":"experimental","unwind":2,"desc":"blocking payload (2 bytes, one byte per call, the first call answered with Interrupted) consumed through the ASYNC interface: the bridge retries, the consumer sees no error, header+attributes, exact payload, EOF","sym":"request id, value, 2 payload bytes"}
+pub fn c08_async_sync_payload_interrupted(inp: &mut Inp) {
+    let (mut r, head) = message(inp);
+    let pay = payload_bytes(inp, 2);
+    *r.payload_mut() = IppPayload::new(Src::new(pay, 3));
+    let out = drain_async(core::pin::pin!(r.into_async_read()), 3, head.len() + 2);
+    expect_stream(&out, &head, pay);
+    reached();
+}
